@@ -29,11 +29,11 @@ type Rec struct {
 	// Session label (to tell sessions apart on the tape).
 	Session string
 
-	w       stack.CtxWaiter
-	parties []uint16
-	send    func(msg []byte, isBroadcast bool, to uint16)
-	got     map[string]int // "phase/from/kind" -> count
-	share   []byte
+	w        stack.CtxWaiter
+	parties  []uint16
+	send     func(msg []byte, isBroadcast bool, to uint16)
+	got      map[string]int // "phase/from/kind" -> count
+	share    []byte
 	returned bool
 }
 
@@ -44,17 +44,17 @@ type Phase struct {
 }
 
 type Event struct {
-	Kind    string // init | onmsg | emit | factory | return
-	Node    uint16
-	Party   uint16
-	Session string
-	From    uint16
-	To      uint16
-	Bcast   bool
-	Payload []byte
-	Parties []uint16
+	Kind        string // init | onmsg | emit | factory | return
+	Node        uint16
+	Party       uint16
+	Session     string
+	From        uint16
+	To          uint16
+	Bcast       bool
+	Payload     []byte
+	Parties     []uint16
 	AfterReturn bool
-	Seq     int
+	Seq         int
 }
 
 type Tape struct {
